@@ -180,3 +180,10 @@ def alarms_set(self: Ref['mqtt.client.pubsubs.MQTTProtocol']) -> bool:
             and forall(lambda k: implies(contains(R(self), k), not is_none(R(self)[k].alarm)))
             and forall(lambda k: implies(contains(S(self), k), not is_none(S(self)[k].alarm)))
             and forall(lambda k: implies(contains(U(self), k), not is_none(U(self)[k].alarm))))
+
+
+@spec
+def same_containers(self: Ref['mqtt.client.pubsubs.MQTTProtocol']) -> bool:
+    """the per-address windows and queue are still the same objects (only their contents may have changed)"""
+    return (W(self) == old(W(self)) and R(self) == old(R(self)) and S(self) == old(S(self)) and U(self) == old(U(self))
+            and X(self) == old(X(self)) and Q(self) == old(Q(self)))
